@@ -99,6 +99,24 @@ func init() {
 		fc.sc.assume(tImp(tAnd(tEq(a.Len, "0"), tEq(b.Len, "0")), tEq(r, "0")))
 		return intVal(types.Typ[types.Int], r)
 	}
+	nonNilIface := func(fc *FnCtx, fr *Frame, st *State, reach string, recv Val, args []Val, call ssa.CallInstruction) Val {
+		v := fc.freshVal(st, resultType(call.Common().Signature().Results()), "addr")
+		fc.sc.assume(tNot(tEq(v.Tag, "0")))
+		return v
+	}
+	envInvoke["net.Conn.LocalAddr"] = nonNilIface
+	envInvoke["net.Conn.RemoteAddr"] = nonNilIface
+	envFuncs["(net.IP).To4"] = func(fc *FnCtx, fr *Frame, st *State, reach string, args []Val, call ssa.CallInstruction) Val {
+		v := fc.freshVal(st, resultType(call.Common().Signature().Results()), "ip4")
+		fc.sc.assume(tOr(tEq(v.Arr, "0"), tEq(v.Len, "4")))
+		return v
+	}
+	envFuncs["strings.HasSuffix"] = func(fc *FnCtx, fr *Frame, st *State, reach string, args []Val, call ssa.CallInstruction) Val {
+		return boolVal(sx("str.suffixof", args[1].S, args[0].S))
+	}
+	envFuncs["strings.HasPrefix"] = func(fc *FnCtx, fr *Frame, st *State, reach string, args []Val, call ssa.CallInstruction) Val {
+		return boolVal(sx("str.prefixof", args[1].S, args[0].S))
+	}
 	timeEnv()
 	envFuncs["(*sync.Pool).Put"] = nop
 	envFuncs["(*sync.Pool).Get"] = func(fc *FnCtx, fr *Frame, st *State, reach string, args []Val, call ssa.CallInstruction) Val {
